@@ -269,20 +269,31 @@ Inductive rares :=
 Definition result_of (s : rstate) : rares := RAOk (rs_meta s) (rs_hs s) (rs_ents s) (rs_match s).
 
 (* write = opened with Open (tail() != nil): everything must be read up to io.EOF;
-   otherwise (OpenForRead) io.ErrUnexpectedEOF is tolerated. *)
+   otherwise (OpenForRead) io.ErrUnexpectedEOF is tolerated.
+   ErrSnapshotNotFound: ReadAll sets err = ErrSnapshotNotFound when the start snapshot was not
+   seen, but in write mode the following `w.encoder, err = newFileEncoder(...)` overwrites err
+   with nil, so the caller of Open+ReadAll never sees it (the code as it stands). *)
+Definition result_w (write : bool) (s : rstate) : rares :=
+  RAOk (rs_meta s) (rs_hs s) (rs_ents s) (rs_match s || write).
+
 Definition finish (write : bool) (s : rstate) (st : fstatus) : rares :=
   match st with
-  | FEnd => result_of s
-  | FUnexp => if write then RAErr CUnexpEOF else result_of s
+  | FEnd => result_w write s
+  | FUnexp => if write then RAErr CUnexpEOF else result_w write s
   | FErr e => RAErr (class_of_derr e)
   end.
 
-Definition read_all (write : bool) (si st : N) (files : list bytes) : rares :=
-  let '(rs, fs, _, _) := decode_files files 0 in
+Definition decoded := (list wrec * fstatus * N * N)%type.
+
+Definition read_all_dec (write : bool) (si st : N) (d : decoded) : rares :=
+  let '(rs, fs, _, _) := d in
   match interp_all si st rs_init rs with
   | SErr c => RAErr c
   | SOk s => finish write s fs
   end.
+
+Definition read_all (write : bool) (si st : N) (files : list bytes) : rares :=
+  read_all_dec write si st (decode_files files 0).
 
 (* the same, from an already decoded record list (used by the oracle) *)
 Definition interp_result (si st : N) (rs : list wrec) : rares :=
@@ -333,12 +344,15 @@ Fixpoint verify_all (si st : N) (s : rstate) (rs : list wrec) : step rstate :=
     end
   end.
 
-Definition verify (si st : N) (files : list bytes) : rares :=
-  let '(rs, fs, _, _) := decode_files files 0 in
+Definition verify_dec (si st : N) (d : decoded) : rares :=
+  let '(rs, fs, _, _) := d in
   match verify_all si st rs_init rs with
   | SErr c => RAErr c
   | SOk s => finish false s fs
   end.
+
+Definition verify (si st : N) (files : list bytes) : rares :=
+  verify_dec si st (decode_files files 0).
 
 (* ------------------------------------------------------------------ Repair (repair.go) *)
 
@@ -508,11 +522,18 @@ Definition rares_eqb (a b : rares) : bool :=
     bytes_eqb (opt_bytes m1) (opt_bytes m2) && hs_eqb h1 h2 && ents_eqb e1 e2 && Bool.eqb f1 f2
   | _, _ => false
   end.
+(* the data only (in write mode the found flag carries no information) *)
+Definition rares_data_eqb (a b : rares) : bool :=
+  match a, b with
+  | RAOk m1 h1 e1 _, RAOk m2 h2 e2 _ =>
+    bytes_eqb (opt_bytes m1) (opt_bytes m2) && hs_eqb h1 h2 && ents_eqb e1 e2
+  | _, _ => false
+  end.
 
 (* property oracle: `got` (a result returned without error) is what ReadAll yields on the
    first k written records, for some k >= kmin *)
 Fixpoint prefix_ok_from (si st : N) (s : rstate) (k kmin : nat) (rest : list wrec) (got : rares) : bool :=
-  ((Nat.leb kmin k) && rares_eqb (result_of s) got)
+  ((Nat.leb kmin k) && rares_data_eqb (result_of s) got)
   || match rest with
      | [] => false
      | r :: rest' =>
@@ -569,16 +590,19 @@ Fixpoint locate (rs : list wrec) (k : N) (off : N) : N * part :=
   end.
 
 (* ReadAll in write mode together with its effect on the directory (ZeroToEnd on the tail) *)
-Definition read_all_w (si st : N) (files : list bytes) : rares * list bytes :=
-  let '(rs, fs, off, _) := decode_files files 0 in
+Definition read_all_w_dec (si st : N) (files : list bytes) (d : decoded) : rares * list bytes :=
+  let '(rs, fs, off, _) := d in
   match interp_all si st rs_init rs with
   | SErr c => (RAErr c, files)
   | SOk s =>
     match fs with
-    | FEnd => (result_of s, map_last (zero_tail off) files)
+    | FEnd => (result_w true s, map_last (zero_tail off) files)
     | _ => (finish true s fs, files)
     end
   end.
+
+Definition read_all_w (si st : N) (files : list bytes) : rares * list bytes :=
+  read_all_w_dec si st files (decode_files files 0).
 
 (* records per file, as the chained decoder reads them (stops like decode_files does) *)
 Fixpoint decode_each (files : list bytes) (crc : N) : list (list wrec) :=
